@@ -55,9 +55,11 @@ func jobCmd(args []string) {
 	unwind := fs.Int("unwind", 64, "")
 	maxalloc := fs.Int("maxalloc", 16, "")
 	smtlog := fs.String("smtlog", "", "")
+	hmode := fs.String("hashmode", "pair", "")
 	params := kvFlag{}
 	fs.Var(params, "p", "param k=v")
 	fs.Parse(args)
+	sym.HashAxiomMode = *hmode
 	ov, err := sym.Overlay(*repo, *verif)
 	if err != nil {
 		panic(err)
